@@ -390,6 +390,26 @@ func (c *c17Mon) sample(sc *StepCtx) {
 		if exists && (lerr != nil || !bytes.Equal(compactJSON(lres), aj(rc))) {
 			bad("request-context", "legacy", "legacy context(%.16s) differs from the stored record (err %v)", id, lerr)
 		}
+		if exists && lerr == nil {
+			// the textual forms of the two state fields, against the harness's own table
+			var generic map[string]interface{}
+			if json.Unmarshal(lres, &generic) == nil {
+				wantState := map[types.RequestContextState]string{types.RUNNING: "running", types.PAUSED: "paused", types.COMPLETED: "completed"}[rc.State]
+				wantBatch := map[types.RequestContextBatchState]string{types.BATCHRUNNING: "running", types.BATCHCOMPLETED: "completed"}[rc.BatchState]
+				gs, okS := generic["state"].(string)
+				gb, okB := generic["batch_state"].(string)
+				if _, present := generic["state"]; !present && !okS {
+					gs = "running" // zero values are omitted
+				}
+				if _, present := generic["batch_state"]; !present && !okB {
+					gb = "running"
+				}
+				judge("request-context-state-names", wantState+"/"+wantBatch)
+				if gs != wantState || gb != wantBatch {
+					bad("request-context", "legacy-state-name", "legacy context(%.16s) renders state %q / batch state %q, the record is %s / %s", id, gs, gb, wantState, wantBatch)
+				}
+			}
+		}
 		if !exists && lerr == nil && !bytes.Equal(compactJSON(lres), aj(types.RequestContext{})) {
 			bad("request-context", "legacy-phantom", "legacy context(%.16s) returns a record although none is stored", id)
 		}
